@@ -224,6 +224,11 @@ Section Announce.
     | EReconnect :: r => run_events client subscribed (on_reconnect st) r
     end.
 
+  (* subscribe_to(service_name, cb) by a late subscriber: it is told, for every index of that service,
+     the key and the announcement currently held there -- each key with ITS announcement *)
+  Definition backlog (st : state) (svc : N) : list (keystr * ann) :=
+    map (fun p => (snd (fst p), snd p)) (filter (fun p => fst (fst p) =? svc) (st_store st)).
+
   Fixpoint batches_of (evs : list event) : list (list wire) :=
     match evs with
     | [] => []
@@ -258,6 +263,7 @@ Arguments EBatch {keystr msg sig} ws.
 Arguments EReconnect {keystr msg sig}.
 Arguments run_events {pubkey keystr msg sig} verify parse_key canon decode keystr_eqb client subscribed st evs.
 Arguments batches_of {keystr msg sig} evs.
+Arguments backlog {keystr} st svc.
 
 (* ---- executable symbolic instance ----
    keys are numbered; a key string is (key id, spelling): spelling 0 is the
@@ -297,6 +303,13 @@ Definition delivered_ids (st : state sym_keystr) : list (N * N * N) :=
   map (fun p => (fst (fst p), snd (fst p), a_body (snd p))) (st_delivered st).
 Definition stored_ids (st : state sym_keystr) : list (N * N * N * N) :=
   map (fun p => (fst (fst p), fst (snd (fst p)), snd (snd (fst p)), a_body (snd p))) (st_store st).
+
+Definition backlog_ids (st : state sym_keystr) (svc : N) : list (N * N * N) :=
+  map (fun p => (fst (fst p), snd (fst p), a_body (snd p))) (backlog st svc).
+Definition triple_in (q : N * N * N) (l : list (N * N * N)) : bool :=
+  existsb (fun r => match q, r with (a, b, c), (a', b', c') => (a =? a') && (b =? b') && (c =? c') end) l.
+Definition triples_seteq (a b : list (N * N * N)) : bool :=
+  (length a =? length b)%nat && forallb (fun q => triple_in q b) a && forallb (fun q => triple_in q a) b.
 
 Fixpoint triples_eqb (a b : list (N * N * N)) : bool :=
   match a, b with
